@@ -1,4 +1,5 @@
 from collections.abc import Hashable
+from collections import OrderedDict
 from pyg_base._types import is_primitive
 from pyg_base._decorators import wrapper, getargs
 
@@ -13,6 +14,8 @@ class _hashable(tuple):
     >>> assert _prehash(dict(a = 1)) != _prehash((('a', 1),)) 
     >>> assert _prehash(dict(a = 1, b = [2])) == _prehash(dict(b = [2], a = 1))
     >>> assert _prehash({1,2}) == frozenset([1,2])
+    >>> from collections import OrderedDict
+    >>> assert _prehash(OrderedDict(a = 1, b = 2)) != _prehash(OrderedDict(b = 2, a = 1)) and OrderedDict(a = 1, b = 2) != OrderedDict(b = 2, a = 1)
     """
     def __eq__(self, other):
         return type(other) is _hashable and tuple.__eq__(self, other)
@@ -28,6 +31,8 @@ def _prehash(value):
         return _hashable([list] + [_prehash(v) for v in value])
     elif isinstance(value, dict):
         items = [(k, _prehash(v)) for k, v in value.items()]
+        if isinstance(value, OrderedDict): # two OrderedDicts are == only if their items come in the same order
+            return _hashable([OrderedDict] + items)
         try:
             items = sorted(items)
         except TypeError:
